@@ -316,7 +316,8 @@ pub(crate) fn mutate_response(rng: &mut Rng, base: &Resp, chain: &SynChain, fork
             // that is consistent with this root: only the last header's own commitment to its chain root tells them apart
             let last_n: u64 = r.last.header().raw().number().unpack();
             let numbers: Vec<u64> = r.headers.iter().map(|h| h.header().raw().number().unpack()).collect();
-            if last_n < fork.len() && numbers.iter().all(|n| *n < last_n) && numbers.iter().any(|n| fork.headers[*n as usize].hash() != chain.headers[*n as usize].hash()) {
+            // (only where the last header commits to its chain root at all: before MMR activation nothing authenticates it)
+            if chain.has_root(last_n) && last_n < fork.len() && numbers.iter().all(|n| *n < last_n) && numbers.iter().any(|n| fork.headers[*n as usize].hash() != chain.headers[*n as usize].hash()) {
                 let other_root = fork.packed_vheader(last_n).parent_chain_root();
                 r.last = r.last.clone().as_builder().parent_chain_root(other_root).build();
                 r.headers = numbers.iter().map(|n| fork.packed_vheader(*n)).collect();
